@@ -27,6 +27,8 @@ def run(ctx, rep):
     rep.rule("no-truncation", "a ByteSize(n) row's range is not wider than n bytes can hold (signed or unsigned)")
     rep.rule("contains-shape", "AllowedRange::contains(v) is min <= v && v < max, and the unchecked range admits every i64")
     rep.rule("verify-dominates", "in RelocationKindInfo::write_to_buffer every store into the output is on the success edge of verify; verify tests alignment and range")
+    rep.rule("field-writers", "in every function that applies relocations (the callers of write_to_buffer) a `&mut [u8]` view of the section is consumed only by sub-slicing, "
+             "write_to_buffer, or the instruction rewriters (Relaxation::apply, Arch::fill_nop_padding); helpers are followed; no raw store, so no relocated value bypasses verify")
     rep.rule("from-bit-size", "AllowedRange::from_bit_size folds to the two's-complement / unsigned ranges")
 
     contains_total = check_contains(rep, P, F, FD)
@@ -83,6 +85,7 @@ def run(ctx, rep):
 
     check_from_bit_size(rep, FD)
     check_verify(rep, P, F)
+    check_field_writers(rep, P, F)
 
 
 def _nbytes(r, o):
@@ -183,3 +186,63 @@ def check_verify(rep, P, F):
     tb, fb = bool_edge_blocks(v, vf, vcfg, lambda k: k == "linker_utils::elf::AllowedRange::contains")
     oks = [bi for bi, si, pr, pl in vf.defs.get(0, []) if si != "call" and pl["k"] == "agg" and pl.get("variant") == "Ok"]
     rep.ob("verify-dominates", "out-of-range-is-error", bool(oks) and all(o in tb for o in oks), "Ok(()) is returned only on the contains()==true edge", v.file, v.line)
+
+
+W2B = "linker_utils::elf::RelocationKindInfo::write_to_buffer"
+SLICERS = ("core::slice::index::index_mut", "core::slice::get_mut", "core::slice::split_at_mut", "core::slice::split_at_mut_checked",
+           "::index_mut", "core::slice::get_unchecked_mut", "core::slice::first_chunk_mut", "core::slice::split_first_chunk_mut")
+# consumers other than write_to_buffer that legitimately take the section bytes: they rewrite *instructions* (C14 decides their bytes),
+# the relocated value itself is still written by write_to_buffer afterwards
+REWRITERS = ("libwild::platform::Relaxation::apply", "libwild::platform::Arch::fill_nop_padding")
+
+
+def _is_bytes_mut(ty):
+    return ty.startswith("&mut [u8") or ty.startswith("std::option::Option<&mut [u8") or ty.startswith("(&mut [u8")
+
+
+def check_field_writers(rep, P, F):
+    callers = sorted({b.key for b, bi, t in P.callers_of(lambda k: k == W2B)} if hasattr(P, "callers_of") else [])
+    callers = [c for c in callers if not c.startswith("linker_utils::")]
+    rep.floor("field-writers", "functions applying relocations through write_to_buffer", len(callers), 3)
+    rep.count("relocation-applying-functions", len(callers))
+    seen = set()
+
+    def visit(key, root, depth):
+        if (key, root) in seen:
+            return
+        seen.add((key, root))
+        b = F.body(key)
+        if b is None:
+            rep.ob("field-writers", f"{stable(root)}:{stable(key)}:body", False, f"{key} receives the section bytes of {root} but has no analysable body", None, None)
+            return
+        flow = P.flow(b)
+        bad_stores = []
+        for bi, blk in enumerate(b.blocks):
+            if blk.get("cleanup"):
+                continue
+            for s in blk["s"]:
+                if s["k"] == "assign" and s["p"][1] and "*" in s["p"][1] and _is_bytes_mut(b.locals[s["p"][0]]):
+                    bad_stores.append(s.get("l"))
+        rep.ob("field-writers", f"{stable(root)}:{stable(key)}:no-direct-store", not bad_stores,
+               f"{key} has no direct store through a `&mut [u8]` (lines {bad_stores})", b.file, b.line)
+        consumers = {}
+        for bi, t in flow.calls():
+            for a in t["args"]:
+                if a[0] in ("c", "m") and not a[1][1] and _is_bytes_mut(b.locals[a[1][0]]):
+                    consumers.setdefault(callee_key(t["f"]) or "?", t["l"])
+        for ck, line in sorted(consumers.items()):
+            if ck == W2B or ck in REWRITERS or any(ck == s or ck.endswith(s) for s in SLICERS):
+                continue
+            if ck.startswith("<std::option::Option") or ck.startswith("std::option::Option::") or ck.startswith("<std::result::Result") \
+                    or ck.startswith("std::result::Result::") or "::error::Context>::" in ck:
+                continue  # unwrapping an Option/Result of a sub-slice: the slice comes out with the same type and is judged at its consumer
+            if F.body(ck) is not None and depth < 3:
+                visit(ck, root, depth + 1)
+                continue
+            rep.ob("field-writers", f"{stable(root)}:{stable(key)}:consumer:{stable(ck)}", False,
+                   f"{key} hands the section bytes to {ck}, which writes them without write_to_buffer's range/alignment check", b.file, line)
+        rep.ob("field-writers", f"{stable(root)}:{stable(key)}:consumers", True,
+               f"`&mut [u8]` consumers in {key}: {sorted(consumers)}", b.file, b.line)
+
+    for c in callers:
+        visit(c, c, 0)
